@@ -16,6 +16,7 @@ m = {
  "engines": [
   {"name": "hypothesis+execdrv", "path": "lib/pbt.py", "kind_free_text": "Hypothesis strategies / state machines driving the real libsnoopy.so through a preloaded driver with a recording execv/execve", "serves_properties": sorted(c["property_id"] for c in CHECKS if c.get("engine") == "hypothesis+execdrv")},
   {"name": "libfuzzer+hypothesis", "path": "harness/fuzz_exec.cpp", "kind_free_text": "libFuzzer target over (config bytes, exec request) against the clang ASan/UBSan build; Hypothesis boundary sweep through execdrv", "serves_properties": sorted(c["property_id"] for c in CHECKS if c.get("engine") == "libfuzzer+hypothesis")},
+  {"name": "strace-injection+execdrv", "path": "lib/trace.py", "kind_free_text": "execdrv oneshot mode under strace: window markers, per-call error injection, syscall log", "serves_properties": sorted(c["property_id"] for c in CHECKS if c.get("engine") == "strace-injection+execdrv")},
   {"name": "hypothesis+snoopyctl", "path": "lib/preload.py", "kind_free_text": "exhaustive + Hypothesis-generated ld.so.preload contents against the real snoopyctl binary", "serves_properties": sorted(c["property_id"] for c in CHECKS if c.get("engine") == "hypothesis+snoopyctl")},
   {"name": "strace-injection+snoopyctl", "path": "checks/C20.py", "kind_free_text": "enumerated crash points / failing write calls via strace -e inject", "serves_properties": sorted(c["property_id"] for c in CHECKS if c.get("engine") == "strace-injection+snoopyctl")},
  ],
